@@ -63,7 +63,7 @@ CHECKS = {
              'language reference (Antimirov-derivative matchers, continuation-stack semantics of case/optional/loop/break/try/foreach/if/wait/finish/yield, handlers, '
              'exactly the timing freedom the property grants), keeping the set of Lang configurations consistent with every hook call (with output snapshot), yield, '
              'status and final outputs the machine produced. A symbol after which that set is empty is a violation with the input history as witness, replayed on the C binary.',
-        note='Generated programs (seeded) up to a per-program input-length bound over one representative per symbol cell; the oracle is permissive at the open points OP1-OP8 of DESIGN.md; '
+        note='Generated programs (seeded) plus the bounded-exhaustive family (every statement program of a compact grammar with <= 3 nodes in the thorough tier, strided slices otherwise) up to a per-program input-length bound over one representative per symbol cell; the oracle is permissive at the open points OP1-OP8 of DESIGN.md; '
              'data effects of actions reuse the machine specification (decided by C14/C15); C06 binds the binary to the machine.',
         technique='TLC product exploration: exported DFA x TLA+ source semantics (candidate-set refinement)', thorough=True),
     'C05': dict(
@@ -79,7 +79,7 @@ CHECKS = {
              'exceeds the fuel of non-consuming moves (fall-through, condition branches, out-of-space redirects, breaks) and yield sequences that never consume; each report is '
              'confirmed on the binary under a wall-clock limit. Reject side: generated loops that may or may not consume; whenever the TLA+ source semantics (NmfuLang) can go round '
              'without consuming, or the machine spins, the compiler must have rejected the program. All C runs are wall-clock guarded.',
-        note='Length-bounded exploration over sampled programs; the fuel bound (64 moves) stands for "unbounded"; one accepted class is a recorded known finding (out-of-space handler re-entering the appending construct).',
+        note='Length-bounded exploration over sampled programs and the bounded-exhaustive family (all nestings of the control constructs up to 3 nodes in the thorough tier); the fuel bound (64 moves) stands for "unbounded"; one accepted class is a recorded known finding (out-of-space handler re-entering the appending construct).',
         technique='TLC exploration of non-consuming cycles in exported machines + source-semantics zero-progress detection', thorough=True),
     'C07': dict(
         category='model_checking', design_ref='6/C07',
@@ -112,7 +112,7 @@ CHECKS = {
         text='LangMC.tla: for every generated program the real compiler ACCEPTED (statement pairs A;B with lookahead-terminated A, greedy cases with shared finishing strings and drawn priorities, case pattern sets, '
              'general programs), TLC explores the TLA+ source semantics over all symbol cells and evaluates the language-theoretic predicate Ambiguous at every reachable decision point and every next symbol '
              '(derivative sets for clause patterns, strong first sets over the continuation stack for "what follows"); priority ties are detected at the decision itself.',
-        note='Direction accepted => unambiguous only (the compiler may reject more). else clauses, wait skipping and handlers are fall-backs, not competing continuations (OP3). Length-bounded over sampled programs.',
+        note='Direction accepted => unambiguous only (the compiler may reject more). else clauses, wait skipping and handlers are fall-backs, not competing continuations (OP3); inside a greedy case a symbol that continues a pattern is consumed (maximal munch), which is its documented meaning and not an ambiguity. Length-bounded over sampled programs and the bounded-exhaustive family.',
         technique='TLC exploration of TLA+ source semantics with a language-theoretic ambiguity predicate', thorough=True),
     'C11': dict(
         category='other', design_ref='6/C11',
@@ -147,7 +147,7 @@ CHECKS = {
         category='exploration', design_ref='6/C18',
         text='Every compile call of the run (a catalogue of 70 one-rule-at-a-time edge cases, random mutations of generated programs, all generator families, the corpus incl. *.fail.nmfu) is recorded and validated by TLC against '
              'CompileTrace.tla, whose alphabet of outcomes is {code, diagnosed error with renderable message} and {diagnosed} alone where the static rules require a diagnosis; internal exceptions, unrenderable errors and time-outs are rejected.',
-        note='The quantifier over all sources is sampled (exploration); per-compilation limit 90 s.',
+        note='The quantifier over all sources is sampled (exploration) except for the bounded-exhaustive family (all statement programs of a compact grammar with <= 3 nodes in the thorough tier); option sets: every flag alone and every ordered pair of code-generation flags on/off; per-compilation limit 240 s.',
         technique='TLC trace validation of compile events against an outcome-alphabet spec', thorough=True),
     'C20': dict(
         category='model_checking', design_ref='6/C20',
